@@ -94,6 +94,13 @@ def run(chk):
             chk.traces += len(creds)
             chk.evaluations += ncalls
             chk.extra["repo_test_trace"] = {"credentials": len(creds), "calls": ncalls}
+    # (ii-c) one SignedAccumulator asked by several goroutines at once (SaccMemoConc.tla); the stress run below exercises its four
+    #        initial states under the race detector
+    r = vplib.tlc_mc("SaccMemoConc", "SaccMemoConc.mc.cfg", timeout=300)
+    chk.add_tlc(r, "SaccMemoConc", "SaccMemoConc.mc.cfg", "NoRace, ReturnsSigned, AllReturn for three goroutines and every initial state of the object")
+    pr = vplib.tlc("SaccMemoConc", "SaccMemoConc.asis.cfg", timeout=300, allow_fail=True)
+    if "NoRace" not in pr.invariant_violated:
+        raise vplib.Machinery("SaccMemoConc: without the lock NoRace should be violated (vacuity)")
     # (iii) stress under the race detector
     res = vplib.vh("cc", ["stress", "--tier", T, "--seed", str(chk.seed)], timeout=3000, race=True, env={"GORACE": "halt_on_error=0 exitcode=0 log_path=%s" % os.path.join(d, "race-stress")})
     chk.add_replay(res, "race_stress")
